@@ -374,6 +374,26 @@ def programs(tier, seed):
     q["entry"] = main
     q["name"] = "callbacks-handed-to-untracked-runner"
     ps.append(q)
+    # two kept functions share a plain helper that reaches a kept node through a second plain helper
+    q = gen.new_program("g%d" % k)
+    k += 1
+    m = gen.add_module(q, "gm")
+    fu = gen.add_fn(q, m, "fu", const=1)
+    h2 = gen.add_fn(q, m, "inner_helper", const=2)
+    q["fns"][h2]["stmts"] = [gen.s_keep("/sh/u", fu, [])]
+    h1 = gen.add_fn(q, m, "outer_helper", const=3)
+    q["fns"][h1]["stmts"] = [gen.s_call(h2, [])]
+    v1 = gen.add_fn(q, m, "v_one", const=4)
+    q["fns"][v1]["stmts"] = [gen.s_call(h1, [])]
+    v2 = gen.add_fn(q, m, "v_two", const=5)
+    q["fns"][v2]["stmts"] = [gen.s_call(h1, [])]
+    v3 = gen.add_fn(q, m, "v_three", const=6)
+    q["fns"][v3]["stmts"] = [gen.s_call(h2, [])]
+    main = gen.add_fn(q, m, "gmain", const=9)
+    q["fns"][main]["stmts"] = [gen.s_keep("/sh/v1", v1, []), gen.s_keep("/sh/v2", v2, []), gen.s_keep("/sh/v3", v3, [])]
+    q["entry"] = main
+    q["name"] = "kept-functions-sharing-plain-helpers"
+    ps.append(q)
     # the same function kept under two paths
     q = gen.new_program("g%d" % k)
     k += 1
